@@ -81,6 +81,7 @@ type funcContract struct {
 	file       string
 	props      []string
 	mode       string
+	options    map[string]bool
 	inline     bool
 	summary    bool   // closure: calls use this contract instead of inlining the body
 	selfVar    string // closure: the captured variable that holds the closure itself (recursion)
@@ -256,6 +257,14 @@ func (db *specDB) loadSpecFile(path string, pkgName string, isGo bool) error {
 			cur.props = strings.Fields(strings.ReplaceAll(rest, ",", " "))
 		case "mode":
 			cur.mode = strings.TrimSpace(rest)
+		case "option":
+			// option <name>: engine switches for this function (srccopy: copies also state their facts keyed by the source element)
+			if cur.options == nil {
+				cur.options = map[string]bool{}
+			}
+			for _, o := range strings.Fields(rest) {
+				cur.options[o] = true
+			}
 		case "local":
 			// local <name> <type>#<k> : positional anchor of a local variable named in this function's contract
 			f := strings.Fields(rest)
